@@ -332,8 +332,22 @@ example : ∀ p, Inside p → ∀ c, (MD.new.upd 5 (some 1)).getPixel p = some (
   · simp only [Option.some.injEq] at hc; subst hc; decide
   · cases hc
 
+/-- `from_pattern` on a well-formed pattern (rows of one byte width `w ≤ 64`, at most 64 rows,
+every character a space or convertible by `char_to_color` — `convRows` returns the converted rows)
+does not panic and puts character `x` of row `y` into cell `(x, y)`; every cell beyond the pattern
+is `None`. -/
+theorem from_pattern_cells (ct : CT) (pat : List (List Char)) (rows : List (List (Option Color)))
+    (w : Nat) (hw : w ≤ 64) (h1 : ∀ r ∈ pat, rowLen r = w) (h2 : pat.length ≤ 64)
+    (h3 : convRows ct pat = some rows) :
+    ∃ d, fromPattern ct pat = .ok d ∧ ∀ x y : Nat, x < 64 → y < 64 →
+      d.getPixel ⟨(x : Int), (y : Int)⟩ = some (((rows[y]?).bind (fun r => r[x]?)).join) :=
+  fromPattern_cells ct pat rows w hw h1 h2 h3
+
+example : (∀ r ∈ [['#', ' '], ['.', '#']], rowLen r = 2) ∧
+    convRows .binary [['#', ' '], ['.', '#']] = some [[some 1, none], [some 0, some 1]] := by decide
+
 -- [V] `Debug` of `from_pattern(pattern)` is the pattern again (rows padded to 64 columns, trailing empty rows dropped, lower-case hex digits printed upper-case): carried by correspondence + oracle only (streams mock.pattern: `dbg=`, oracle class debug-rows)
--- [V] `from_pattern` places character (x, y) of an accepted pattern in cell (x, y) and panics on over-wide / over-tall / ragged patterns and unknown characters: the model `fromPattern` does exactly that by construction (arm for arm) and is compared on every `mock.pattern` op; no separate theorem
+-- [V] `from_pattern` panics on over-wide / over-tall / ragged patterns and unknown characters (which assertion fires first): the model `fromPattern` transcribes the four checks arm for arm and is compared on every `mock.pattern` op (`err=`); no separate theorem
 -- [V] the framing text of `{:?}` ("MockDisplay[", "(n empty rows skipped)", "]"): compared through the hash `dh=` of the complete text on every `mock.hist` op
 -- [V] `swap_xy`, `map` (not part of the property text): compared on every accepted `mock.pattern` op (`sw=`, `mp=`)
 -- [V] colours outside a type's colour set (`Gray8` values that are not multiples of 0x11, RGB colours other than the eight named ones) print as '?', which `from_pattern` rejects: observed by the oracle (class debug-unrepresentable-not-rejected), not a theorem
